@@ -585,6 +585,21 @@ def gen_pattern(r, max_pat=5):
     return {"ref": ref, "est": est, "cls": kind}
 
 
+def gen_pattern_doubled(r):
+    """Like gen_pattern, but some occurrences list a note twice (two voices in
+    unison): admitted by the validator, absent from the point-set generator."""
+    inp = gen_pattern(r)
+    for side in ("ref", "est"):
+        if r.random() < 0.7:
+            for pat in inp[side]:
+                for occ in pat:
+                    if occ and r.random() < 0.6:
+                        for _k in range(r.randrange(1, len(occ) + 1)):
+                            occ.append(occ[r.randrange(len(occ))])
+    inp["cls"] += "+doubled-notes"
+    return inp
+
+
 def calls_pattern(inp, r):
     a = (inp["ref"], inp["est"])
     return [
